@@ -191,6 +191,44 @@ theorem qRefs_pos_of_wait_mem (k : Key) (x : Nat) (h : x ∈ k.wait.map (·.rid)
 
 theorem ids_modR (w : W) (rid : Nat) (f : Rec → Rec) (hf : ∀ r, (f r).rid = r.rid) : (w.modR rid f).k.ids = w.k.ids := ids_modRec _ rid f hf
 
+/-- the cancel of a queued request, up to the counter / two replies / wake pass -/
+theorem cancel_tight_pre (db : DB) (hdb : DBI db) (ht : ∀ k ∈ db.keys, KeyTight k) (c : Cmd) (x : Nat)
+    (hm : x ∈ (db.getKey c.key).wait.map (·.rid)) (hd : (db.getKey c.key).deadWaiter x = false) :
+    Tight ((((((db.openKey c.key).modR x (fun r => { r with timeouted := true })).dropLongT x).modK (·.settleWait)).ctr
+        (fun y => { y with waitCount := y.waitCount - 1 })).removeIfZero) := by
+  have ge := Good.openKey hdb ht c.key
+  have le := ge.lv
+  have ce := cur_openKey ht c.key
+  have hq : 0 < (db.openKey c.key).k.qRefs x := qRefs_pos_of_wait_mem _ x hm
+  have hh : (db.openKey c.key).k.hasRec x := le.rc.dang x (by simp only [zero]; omega)
+  have l1 : Lv ((db.openKey c.key).modR x (fun r => { r with timeouted := true })) zero :=
+    le.modR x _ (fun _ => rfl) (le.rc.modRec_plain x _ (fun _ => rfl) (fun _ => rfl) (fun _ => rfl)) (by
+      intro r _ _ hf; simp at hf)
+  have n1 : Nz ((db.openKey c.key).modR x (fun r => { r with timeouted := true })) none :=
+    ge.nz.of_up (RecsUp.modRec _ x _ (fun _ => rfl) (fun _ h => ⟨h.pos, h.hold, h.ended, h.fin⟩))
+  have hh1 : ((db.openKey c.key).modR x (fun r => { r with timeouted := true })).k.hasRec x :=
+    (hasRec_modR _ x x _ (by intro _; rfl)).mpr hh
+  have l2 := l1.dropLongT zero_nonneg x hh1
+  have n2 : Nz (((db.openKey c.key).modR x (fun r => { r with timeouted := true })).dropLongT x) none := by
+    unfold W.dropLongT W.when
+    split
+    · rename_i hl
+      exact n1.removeLongT zero_nonneg l1 x hq (tLong_isSome _ hl)
+    · exact n1
+  have l3 : Lv ((((db.openKey c.key).modR x (fun r => { r with timeouted := true })).dropLongT x).modK (·.settleWait)) zero :=
+    l2.modK _ (settleWait_rc zero_nonneg l2.rc) (RecsLe.settleWait _)
+  have n3 : Nz ((((db.openKey c.key).modR x (fun r => { r with timeouted := true })).dropLongT x).modK (·.settleWait)) none := by
+    have := nz_settleWait n2.nd n2.nz
+    exact ⟨this.1, this.2⟩
+  have c1 := ce.of_dk (dk_modR _ x (fun r => { r with timeouted := true }) (by intro _; rfl) (by intro _; rfl)) l1
+  have c2 := c1.of_dk (dk_dropLongT _ x) l2
+  have c3 := c2.of_dk (dk_modK _ (·.settleWait) (DepthKeep.settleWait _)) l3
+  have g4 : Good (((((db.openKey c.key).modR x (fun r => { r with timeouted := true })).dropLongT x).modK (·.settleWait)).ctr
+      (fun y => { y with waitCount := y.waitCount - 1 })) := (⟨l3, n3⟩ : Good _).ctr _
+  have t5 := Tight.removeIfZero (GoodG.of_good g4) (fun _ => c3)
+  exact t5
+
+
 theorem applyUnlock_tight (db : DB) (hdb : DBI db) (ht : ∀ k ∈ db.keys, KeyTight k) (c : Cmd) (data : Option Bytes) (b : UnlockBranch)
     (hb : ∀ h, b.holderOf = some h → h ∈ (db.getKey c.key).current.toList ++ (db.getKey c.key).locks)
     (hc : ∀ x, b = .cancel x → x ∈ (db.getKey c.key).wait.map (·.rid) ∧ (db.getKey c.key).deadWaiter x = false)
@@ -208,34 +246,7 @@ theorem applyUnlock_tight (db : DB) (hdb : DBI db) (ht : ∀ k ∈ db.keys, KeyT
   | cancel x =>
     simp only [applyUnlock]
     obtain ⟨hm, hd⟩ := hc x rfl
-    have hq : 0 < (db.openKey c.key).k.qRefs x := qRefs_pos_of_wait_mem _ x hm
-    have hh : (db.openKey c.key).k.hasRec x := le.rc.dang x (by simp only [zero]; omega)
-    have l1 : Lv ((db.openKey c.key).modR x (fun r => { r with timeouted := true })) zero :=
-      le.modR x _ (fun _ => rfl) (le.rc.modRec_plain x _ (fun _ => rfl) (fun _ => rfl) (fun _ => rfl)) (by
-        intro r _ _ hf; simp at hf)
-    have n1 : Nz ((db.openKey c.key).modR x (fun r => { r with timeouted := true })) none :=
-      ge.nz.of_up (RecsUp.modRec _ x _ (fun _ => rfl) (fun _ h => ⟨h.pos, h.hold, h.ended, h.fin⟩))
-    have hh1 : ((db.openKey c.key).modR x (fun r => { r with timeouted := true })).k.hasRec x :=
-      (hasRec_modR _ x x _ (by intro _; rfl)).mpr hh
-    have l2 := l1.dropLongT zero_nonneg x hh1
-    have n2 : Nz (((db.openKey c.key).modR x (fun r => { r with timeouted := true })).dropLongT x) none := by
-      unfold W.dropLongT W.when
-      split
-      · rename_i hl
-        exact n1.removeLongT zero_nonneg l1 x hq (tLong_isSome _ hl)
-      · exact n1
-    have l3 : Lv ((((db.openKey c.key).modR x (fun r => { r with timeouted := true })).dropLongT x).modK (·.settleWait)) zero :=
-      l2.modK _ (settleWait_rc zero_nonneg l2.rc) (RecsLe.settleWait _)
-    have n3 : Nz ((((db.openKey c.key).modR x (fun r => { r with timeouted := true })).dropLongT x).modK (·.settleWait)) none := by
-      have := nz_settleWait n2.nd n2.nz
-      exact ⟨this.1, this.2⟩
-    have c1 := ce.of_dk (dk_modR _ x (fun r => { r with timeouted := true }) (by intro _; rfl) (by intro _; rfl)) l1
-    have c2 := c1.of_dk (dk_dropLongT _ x) l2
-    have c3 := c2.of_dk (dk_modK _ (·.settleWait) (DepthKeep.settleWait _)) l3
-    have g4 : Good (((((db.openKey c.key).modR x (fun r => { r with timeouted := true })).dropLongT x).modK (·.settleWait)).ctr
-        (fun y => { y with waitCount := y.waitCount - 1 })) := (⟨l3, n3⟩ : Good _).ctr _
-    have t5 := Tight.removeIfZero (GoodG.of_good g4) (fun _ => c3)
-    exact (((t5.ctr (fun y => { y with unLockCount := y.unLockCount + 1 })).reply _ _ _ _).reply _ _ _ _)
+    exact good_wake ((((cancel_tight_pre db hdb ht c x hm hd).ctr (fun y => { y with unLockCount := y.unLockCount + 1 })).reply _ _ _ _).reply _ _ _ _)
   | dec h c' =>
     simp only [applyUnlock]
     have hh := hasRec_of_holder le h (hb h rfl)
